@@ -1,5 +1,6 @@
 """Spec functions for the controller: matching counts and trace counts (C06, C10, C11, C16)."""
 from pyvc.contracts import specfn, lemma
+from pyvc.specbuiltins import *
 from pyvc.ghost import check
 from core.wl.message import Message
 from core import wl
